@@ -22,14 +22,18 @@ def sh(cmd, **kw):
     return subprocess.run(cmd, shell=True, capture_output=True, text=True, **kw)
 
 
-def run_prop(prop):
+def prepare(prop):
     wt, vc = '/tmp/wt_' + prop, '/tmp/vc_' + prop
-    out = []
     if not os.path.isdir(wt):
         sh('git -C /repo worktree add --detach %s %s' % (wt, head))
     sh('git -C %s checkout -q -- . && git -C %s checkout -q --detach %s' % (wt, wt, head))
     sh('mkdir -p %s && rsync -a --delete --exclude build --exclude target --exclude replays --exclude evidence --exclude .git %s/ %s/' % (vc, VERIF, vc))
     sh("grep -rlI '/repo' %s --exclude-dir=seeded --exclude-dir=target --exclude='*.md' --exclude='*.json' --exclude='*.jsonl' | xargs sed -i 's#/repo#%s#g'" % (vc, wt))
+
+
+def run_prop(prop):
+    wt, vc = '/tmp/wt_' + prop, '/tmp/vc_' + prop
+    out = []
     for seed in by_prop[prop]:
         p = os.path.join(SEEDS, seed)
         sh('git -C %s checkout -q -- .' % wt)
@@ -72,6 +76,10 @@ def run_prop(prop):
     return out
 
 
+# snapshot /verif for every property BEFORE any run starts (later edits of /verif do not leak into the runs)
+for _p in sorted(by_prop):
+    prepare(_p)
+print('snapshots ready', flush=True)
 rows = []
 with cf.ThreadPoolExecutor(max_workers=jobs) as ex:
     for res in ex.map(run_prop, sorted(by_prop)):
